@@ -1,6 +1,8 @@
 package engine
 
 import (
+	"bytes"
+
 	"github.com/cockroachdb/pebble"
 	"github.com/youzan/ZanRedisDB/common"
 )
@@ -58,7 +60,13 @@ func (it *pebbleIterator) Seek(key []byte) {
 	it.Iterator.SeekGE(key)
 }
 
+// SeekForPrev positions at the last key <= key (RocksDB semantics, which the
+// shared range iterator relies on for inclusive upper bounds); pebble only
+// offers SeekLT (strictly below), so look for the key itself first.
 func (it *pebbleIterator) SeekForPrev(key []byte) {
+	if it.Iterator.SeekGE(key) && bytes.Equal(it.Iterator.Key(), key) {
+		return
+	}
 	it.Iterator.SeekLT(key)
 }
 
